@@ -242,10 +242,10 @@ theorem left_cut_iff_counterexample :
 
 /-- A dynamic window with `lw` taps to the left is cut (precision zeroed) iff one of the `lw` frames
     before `f` is unvoiced or lies before the utterance start. -/
-theorem left_cut_iff (mask : List Bool) (f lw : Nat) :
+theorem left_cut_iff (mask : List Bool) (f lw : Nat) (hf : f < mask.length) :
     ((mask.take f).reverse.takeWhile id).length < lw ↔
-      ¬ (lw ≤ f ∧ ∀ k, k < lw → mask.getD (f - 1 - k) false = true) := by
-  sorry
+      ¬ (lw ≤ f ∧ ∀ k, k < lw → mask.getD (f - 1 - k) false = true) :=
+  left_cut_iff_partial mask f lw (Nat.le_of_lt hf)
 
 /-- `right_cut_iff` under the hypothesis `f < mask.length ∨ 0 < rw` (the statement without it is
     false: `mask = []`, `f = 0`, `rw = 0`). -/
@@ -269,10 +269,12 @@ theorem right_cut_iff_counterexample :
         ∀ k, k < 0 → ([] : List Bool).getD (0 + 1 + k) false = true)) := by
   decide
 
-theorem right_cut_iff (mask : List Bool) (f rw : Nat) :
+/-- A dynamic window with `rw` taps to the right is cut iff one of the `rw` frames after `f` is
+    unvoiced or lies past the utterance end. -/
+theorem right_cut_iff (mask : List Bool) (f rw : Nat) (hf : f < mask.length) :
     ((mask.drop (f + 1)).takeWhile id).length < rw ↔
-      ¬ (f + rw < mask.length ∧ ∀ k, k < rw → mask.getD (f + 1 + k) false = true) := by
-  sorry
+      ¬ (f + rw < mask.length ∧ ∀ k, k < rw → mask.getD (f + 1 + k) false = true) :=
+  right_cut_iff_partial mask f rw (Or.inl hf)
 
 /-! ### `fill` / `filter_by` -/
 
